@@ -333,6 +333,9 @@ func RunFamily(f Family, o Options) *FamilyReport {
 		go func() {
 			defer wg.Done()
 			for i := range ch {
+				if Prelude != nil {
+					Prelude(&cases[i])
+				}
 				outs[i] = f.Run(&cases[i])
 				if len(cases) > 20000 {
 					outs[i].Replay = nil // regenerated for the few cases that need a replay file
@@ -454,6 +457,9 @@ func RunFamily(f Family, o Options) *FamilyReport {
 	rep.Wall = time.Since(t0).Seconds()
 	return rep
 }
+
+// Prelude, when set, runs before every case on the goroutine that then runs the case.
+var Prelude func(c *Case)
 
 func readVerdicts(path string) []verdictLine {
 	fh, err := os.Open(path)
